@@ -49,6 +49,11 @@ CRAFTED = {
     # parenthesis levels that begin with `%`: the legacy %VAL/%REF/%LOC built-ins as first actual argument, stray `%`
     "pct.f90": "subroutine spct(n, buf)\n  integer :: n, buf(3)\n  call c_send(%val(n), buf)\n  call c_send(%ref(buf(1)), %loc(n))\n"
                "  n = buf(%val(1))\n  buf = [%val(n), 1, 2]\n%n = 1\n  % n\n  call (%n)\nend subroutine spct\n",
+    # an INTENT entity of an included file that is no argument; an undeclared argument of a scope that includes a short file
+    "decl_inc.f90": "\n" * 8 + "integer, intent(in) :: ai\ninteger, intent(in) :: bi\n",
+    "incl_intent.f90": "subroutine fooi(ai)\n  include 'decl_inc.f90'\nend subroutine fooi\n",
+    "decl_short.f90": "integer, intent(in) :: aj\n",
+    "incl_undecl.f90": "\n" * 10 + "subroutine fooj(aj, cj)\n  implicit none\n  include 'decl_short.f90'\nend subroutine fooj\n",
     "odd.f90": "subroutine &\n  & s(a, &\n  b)\n  character(len=*) :: a, b ! tail\n  a = 'it''s' // \"q\" ; b = a\n  if (a == b) then ; end if\nend subroutine s\n!> doc\n\n",
 }
 
